@@ -149,12 +149,12 @@ theorem linkAdr_atomic (cfg : Config) (region : RegionState) (mask : Mask) (rfu 
 
 /-- the commanded data rate: 15 = keep, otherwise the value itself, and only if the region defines it -/
 theorem linkAdrDr_spec (cfg : Config) (r : RegionId) (drRaw d : Nat) (h : linkAdrDr cfg r drRaw = some d) :
-    (drRaw = 15 ∧ d = cfg.dataRate) ∨ (drRaw ≠ 15 ∧ d = drRaw ∧ (getDatarate r drRaw).isSome) := by
+    (drRaw = 15 ∧ d = cfg.dataRate) ∨ (drRaw ≠ 15 ∧ d = drRaw ∧ isUplinkDatarate r drRaw) := by
   unfold linkAdrDr at h
   by_cases h15 : (drRaw == 15) = true
   · simp [h15] at h; left; simp_all
   · simp only [h15, if_false, Bool.false_eq_true] at h
-    by_cases hg : (getDatarate r drRaw).isSome = true
+    by_cases hg : isUplinkDatarate r drRaw = true
     · simp [hg] at h; right; simp_all
     · simp [hg] at h
 
@@ -163,7 +163,7 @@ theorem linkAdr_rejects (cfg : Config) (region : RegionState) (mask : Mask) (rfu
     (ans : Nat) (cfg' : Config) (region' : RegionState)
     (h : linkAdrDecide cfg region mask rfu drRaw pwRaw = .ok (ans, cfg', region')) :
     (rfu = true → ans % 2 = 0)
-    ∧ ((drRaw ≠ 15 ∧ getDatarate region.id drRaw = none) → ans / 2 % 2 = 0)
+    ∧ ((drRaw ≠ 15 ∧ isUplinkDatarate region.id drRaw = false) → ans / 2 % 2 = 0)
     ∧ ((pwRaw ≠ 15 ∧ txPowerAdjust region.id pwRaw = .ok none) → ans / 4 = 0) := by
   obtain ⟨pw, cm, hpw, hcm, hres⟩ := linkAdr_decide_eq _ _ _ _ _ _ _ h
   have hans : ans = (if cm then 1 else 0) + (if (linkAdrDr cfg region.id drRaw).isSome then 2 else 0) + (if pw.isSome then 4 else 0) := by
